@@ -172,6 +172,10 @@ func init() {
 	reg("(*regexp.Regexp).Split", func(m *Machine, fr *frame, a []Value) Value {
 		return strList(reOf(m, a[0]).Split(m.concStr(a[1], "Regexp.Split"), int(m.concInt(a[2]))))
 	})
+	reg("(*regexp.Regexp).SubexpNames", func(m *Machine, fr *frame, a []Value) Value { return strList(reOf(m, a[0]).SubexpNames()) })
+	reg("(*regexp.Regexp).NumSubexp", func(m *Machine, fr *frame, a []Value) Value {
+		return BV(64, uint64(reOf(m, a[0]).NumSubexp()))
+	})
 	reg("(*regexp.Regexp).String", func(m *Machine, fr *frame, a []Value) Value { return CStr(reOf(m, a[0]).String()) })
 	reg("(*regexp.Regexp).NumSubexp", func(m *Machine, fr *frame, a []Value) Value {
 		return BV(64, uint64(reOf(m, a[0]).NumSubexp()))
